@@ -28,13 +28,15 @@ import (
 )
 
 type Scenario struct {
-	Seed     int64    `json:"seed"`
-	Group    bool     `json:"group"`
-	Txn      bool     `json:"txn"`
-	BlockReb bool     `json:"blockRebalanceOnPoll"`
-	Brokers  string   `json:"brokers"` // ok | stalled | gone | refuse
-	Steps    []string `json:"steps"`   // produce | poll | flush | begin | sleep | join2
-	HoldPoll bool     `json:"holdPoll"` // with BlockRebalanceOnPoll: a poll returned records and AllowRebalance was not called
+	Seed         int64    `json:"seed"`
+	Group        bool     `json:"group"`
+	Txn          bool     `json:"txn"`
+	BlockReb     bool     `json:"blockRebalanceOnPoll"`
+	Brokers      string   `json:"brokers"`      // ok | stalled | gone | refuse
+	Steps        []string `json:"steps"`        // produce | poll | flush | begin | sleep | join2
+	SlowPartMs   int64    `json:"slowPartMs"`   // the partitioner sleeps this long (virtual): a Produce can be mid-partitioning when Close runs
+	LateProduces int      `json:"lateProduces"` // Produce calls started concurrently with Close
+	HoldPoll     bool     `json:"holdPoll"`     // with BlockRebalanceOnPoll: a poll returned records and AllowRebalance was not called
 }
 
 func gen(seed int64) Scenario {
@@ -43,6 +45,10 @@ func gen(seed int64) Scenario {
 	if sc.Group && r.Intn(3) == 0 {
 		sc.BlockReb = true
 		sc.HoldPoll = r.Intn(2) == 0
+	}
+	if r.Intn(3) == 0 {
+		sc.SlowPartMs = []int64{1, 100, 1500, 20000, 60000}[r.Intn(5)]
+		sc.LateProduces = 1 + r.Intn(3)
 	}
 	n := r.Intn(8)
 	for i := 0; i < n; i++ {
@@ -85,8 +91,6 @@ func runScenario(t *testing.T, rec *sim.Recorder, sc Scenario) {
 			t.Fatal(err)
 		}
 		var refuse atomic.Bool
-		dial := func(ctx context.Context, network, addr string) (net_ netConn, err error) { return nil, nil }
-		_ = dial
 		opts := []kgo.Opt{kgo.SeedBrokers(c.ListenAddrs()...), kgo.DefaultProduceTopic("t"), kgo.MetadataMinAge(10 * time.Millisecond),
 			kgo.RetryBackoffFn(func(int) time.Duration { return 50 * time.Millisecond }), kgo.FetchMaxWait(200 * time.Millisecond),
 			kgo.Dialer(dialer(&vnet, &refuse))}
@@ -100,6 +104,10 @@ func runScenario(t *testing.T, rec *sim.Recorder, sc Scenario) {
 		}
 		if sc.Txn {
 			opts = append(opts, kgo.TransactionalID("tx-close"))
+		}
+		var slow atomic.Int64
+		if sc.SlowPartMs > 0 {
+			opts = append(opts, kgo.RecordPartitioner(slowPartitioner{kgo.StickyKeyPartitioner(nil), &slow}))
 		}
 		cl, err := kgo.NewClient(opts...)
 		if err != nil {
@@ -169,6 +177,21 @@ func runScenario(t *testing.T, rec *sim.Recorder, sc Scenario) {
 			refuse.Store(true)
 		}
 		synctest.Wait()
+		slow.Store(sc.SlowPartMs)
+		for i := 0; i < sc.LateProduces; i++ {
+			if sc.Txn && !inTxn {
+				break
+			}
+			produced.Add(1)
+			wg.Add(1)
+			go func() {
+				defer wg.Done()
+				cl.Produce(context.Background(), &kgo.Record{Value: []byte("late-concurrent")}, func(*kgo.Record, error) { promised.Add(1) })
+			}()
+		}
+		if sc.LateProduces > 0 {
+			time.Sleep(time.Duration(sc.Seed%3) * time.Millisecond)
+		}
 		rec.Ev("close_call", "holding", holding)
 		start := time.Now()
 		done := make(chan struct{})
@@ -187,7 +210,7 @@ func runScenario(t *testing.T, rec *sim.Recorder, sc Scenario) {
 			rec.Ev("close_stuck", "ms", time.Since(start).Milliseconds())
 		}
 		// afterwards: promises, polls, goroutines
-		time.Sleep(3 * time.Second)
+		time.Sleep(3*time.Second + time.Duration(sc.SlowPartMs)*time.Millisecond)
 		synctest.Wait()
 		pctx, pc := context.WithTimeout(context.Background(), time.Second)
 		fs := cl.PollFetches(pctx)
